@@ -257,26 +257,19 @@ class Trimesh(Geometry3D):
         if self.is_empty:
             return self
 
-        # make sure values we are going to keep aren't stale
-        # from an in-place edit before we lock the cache
-        self._cache.verify()
-        # avoid clearing the cache during operations
-        with self._cache:
-            # if we're cleaning remove duplicate
-            # and degenerate faces
-            if validate:
-                # get a mask with only unique and non-degenerate faces
-                mask = self.unique_faces() & self.nondegenerate_faces()
-                self.update_faces(mask)
-                self.fix_normals()
+        # every step below keeps the cached values it can keep itself:
+        # holding the cache locked across them would let values computed
+        # for the faces before a mask be used for the faces after it
+        # if we're cleaning remove duplicate
+        # and degenerate faces
+        if validate:
+            # get a mask with only unique and non-degenerate faces
+            mask = self.unique_faces() & self.nondegenerate_faces()
+            self.update_faces(mask)
+            self.fix_normals()
 
-            # since none of our process operations moved vertices or faces
-            # we can keep face and vertex normals in the cache without recomputing
-            # if faces or vertices have been removed, normals are validated before
-            # being returned so there is no danger of inconsistent dimensions
-            self.remove_infinite_values()
-            self.merge_vertices(merge_tex=merge_tex, merge_norm=merge_norm)
-            self._cache.clear(exclude={"face_normals", "vertex_normals"})
+        self.remove_infinite_values()
+        self.merge_vertices(merge_tex=merge_tex, merge_norm=merge_norm)
 
         self.metadata["processed"] = True
         return self
